@@ -208,6 +208,8 @@ def isinf_invariance(ctx):
 
 
 def run(ctx):
+    from . import lean as _lean
+    _lean.require(ctx, "Sums.lean", ['prefix_unique', 'sum_cong_rule'])
     shift_lemmas(ctx)
     taint_obligations(ctx)
     acceptance(ctx)
@@ -223,7 +225,7 @@ def run(ctx):
     ctx.trust("C04 contract of compute_logw_and_logz (value = balance-heuristic spec; proved under C04)",
               "C05 contracts of the Reweighter (recorded logz is LOGZ(beta') of the chosen beta'; beta', weights, ESS are functions of the "
               "normalised log-weights only)", "C11/C07 contracts of Mutator.run warm-up",
-              "L-SUM-cong; T-REAL exp/log axioms; Lean lemmas lse_shift / normalised_shift_invariant (MisSum.lean)",
+              "L-SUM rules: each statement is machine-checked in Lean/Mathlib over Finset sums (lemmas/Sums.lean; prefix_unique identifies the prefix function with the finite sum); what stays trusted is the transcription of those statements into the z3 axioms/rules of pyvc/theories/sums.py", "T-REAL exp/log axioms; Lean lemmas lse_shift / normalised_shift_invariant (MisSum.lean)",
               "the taint analysis is flow-insensitive per function and name-based across functions (sound for the package: no reflection, "
               "no dynamic attribute access — scan); sanitised names alpha (O3) and inf_logl_mask (O4) are justified by those obligations",
               "A1: exact equalities over the reals; 'up to floating-point rounding' is exercised only by the bounded paired runs",
